@@ -166,3 +166,328 @@ def inline_new_helpers(facts, d, norm, depth=0, stack=()):
             if changed:
                 break
     return d
+
+
+# ---------------------------------------------------------------------------
+# Desugaring of std combinators on Option / Result / bool into explicit control flow.
+#
+# `opt.map(|x| e)`, `.and_then(..)`, `.filter(..)`, `.unwrap_or_else(..)`, `.map_or(d, f)`, `a.zip(b)`,
+# `.is_some_and(..)`, `.ok_or_else(..)`, `cond.then(|| e)`, `cond.then_some(v)`, `res.map(..)`, `.and_then(..)`,
+# `.map_err(..)` are rewritten, at the MIR level, into the `match` they abbreviate, with the closure body spliced in.
+# Every rule then sees the same path conditions and value flow whether the code is written with combinators or with
+# explicit `match` / `if let` — on the reference tree as well as on a refactored one.
+
+OPT = 'std::option::Option'
+RES = 'std::result::Result'
+OPT_VARIANTS = [['0', 'None'], ['1', 'Some']]
+RES_VARIANTS = [['0', 'Ok'], ['1', 'Err']]
+
+COMBINATORS = {
+    'std::option::Option::map': 'opt_map', 'std::option::Option::and_then': 'opt_and_then',
+    'std::option::Option::filter': 'opt_filter', 'std::option::Option::unwrap_or_else': 'opt_unwrap_or_else',
+    'std::option::Option::map_or': 'opt_map_or', 'std::option::Option::zip': 'opt_zip',
+    'std::option::Option::is_some_and': 'opt_is_some_and', 'std::option::Option::ok_or_else': 'opt_ok_or_else',
+    'std::option::Option::or_else': 'opt_or_else',
+    'std::result::Result::map': 'res_map', 'std::result::Result::and_then': 'res_and_then',
+    'std::result::Result::map_err': 'res_map_err',
+}
+BOOL_COMBINATORS = {'then': 'bool_then', 'then_some': 'bool_then_some'}
+
+
+def _new_local(d, ty):
+    d['locals'] = d['locals'] + [ty]
+    return len(d['locals']) - 1
+
+
+def _new_block(d, st, t, cleanup=False):
+    d['blocks'].append({'cleanup': cleanup, 'st': st, 't': t})
+    return len(d['blocks']) - 1
+
+
+def _mv(l):
+    return {'k': 'move', 'pl': {'l': l, 'p': []}}
+
+
+def _pl(l):
+    return {'l': l, 'p': []}
+
+
+def _assign(lhs, rv, ln):
+    return {'k': 'assign', 'lhs': lhs, 'rv': rv, 'ln': ln, 'x': False}
+
+
+def _agg(adt, v, ops):
+    return {'k': 'agg', 'ak': 'adt', 'adt': adt, 'v': v, 'fields': [str(i) for i in range(len(ops))], 'ops': ops}
+
+
+def _payload(l, adt, variant):
+    return {'l': l, 'p': [{'dc': variant}, {'f': 0, 'n': '0', 'adt': adt, 'v': variant}]}
+
+
+def _goto(t):
+    return {'k': 'goto', 'target': t} if t is not None else {'k': 'unreachable'}
+
+
+def _as_local(d, blk, op, ln, ty='?'):
+    """operand -> local holding it (statements appended to blk)"""
+    if op['k'] in ('move', 'copy') and not op['pl']['p']:
+        return op['pl']['l']
+    l = _new_local(d, ty)
+    blk['st'].append(_assign(_pl(l), {'k': 'use', 'op': op}, ln))
+    return l
+
+
+def _switch_variant(d, blk, local, adt, variants, targets, ln):
+    """terminate blk with a switch on the variant of `local`; targets: {variant name: bb}"""
+    disc = _new_local(d, 'isize')
+    blk['st'].append(_assign(_pl(disc), {'k': 'discr', 'pl': _pl(local), 'ty': adt + '<..>', 'variants': variants}, ln))
+    unreachable = _new_block(d, [], {'k': 'unreachable'})
+    blk['t'] = {'k': 'switch', 'discr': _mv(disc), 'ty': 'isize',
+                'targets': [[v, targets[n]] for v, n in variants], 'otherwise': unreachable, 'ln': ln, 'x': False}
+
+
+def _closure_def_of(d, local):
+    """def path of the closure aggregate assigned to `local` (exactly one construction site), else None"""
+    found = None
+    for blk in d['blocks']:
+        for s in blk['st']:
+            if s['k'] == 'assign' and s['lhs']['l'] == local and not s['lhs']['p']:
+                rv = s['rv']
+                if rv['k'] == 'agg' and rv.get('ak') == 'closure':
+                    if found is not None:
+                        return None
+                    found = rv['def']
+                elif rv['k'] == 'use' and rv['op']['k'] in ('move', 'copy') and not rv['op']['pl']['p']:
+                    inner = _closure_def_of(d, rv['op']['pl']['l'])
+                    if inner is None or found is not None:
+                        return None
+                    found = inner
+                else:
+                    return None
+    return found
+
+
+def _emit_fn_value_call(facts, d, norm, fop, arg_ops, dest, target, ln, depth):
+    """block that evaluates `f(args)` into `dest` and continues at `target`, where f is a closure local (its body is
+    spliced in) or a fn item. Returns the entry block index, or None when f cannot be resolved."""
+    import json
+    if fop['k'] in ('move', 'copy') and not fop['pl']['p']:
+        floc = fop['pl']['l']
+        dp = _closure_def_of(d, floc)
+        if dp is None:
+            return None
+        paths = facts.norm_index.get(norm(dp), [])
+        if len(paths) != 1 or len(facts._raw[paths[0]]) != 1:
+            return None
+        cd = json.loads(facts._raw[paths[0]][0])
+        if cd['nargs'] != len(arg_ops) + 1:
+            return None
+        cd = prepare_body(facts, cd, norm, depth + 1)
+        env_ty = cd['locals'][1]
+        st = []
+        if env_ty.startswith('&mut '):
+            env = _new_local(d, env_ty)
+            st.append(_assign(_pl(env), {'k': 'ref', 'mut': True, 'pl': _pl(floc)}, ln))
+            env_op = _mv(env)
+        elif env_ty.startswith('&'):
+            env = _new_local(d, env_ty)
+            st.append(_assign(_pl(env), {'k': 'ref', 'mut': False, 'pl': _pl(floc)}, ln))
+            env_op = _mv(env)
+        else:
+            env_op = _mv(floc)
+        b = _new_block(d, st, {'k': 'call', 'f': {'k': 'const', 'c': {'fn': cd['path'], 'ty': ''}},
+                               'args': [env_op] + arg_ops, 'dest': dest, 'target': target, 'unwind': None, 'ln': ln,
+                               'x': False, 'fx': False})
+        inline_once(d, b, cd)
+        return b
+    if fop['k'] == 'const' and fop.get('c', {}).get('fn'):
+        c = fop['c']
+        b = _new_block(d, [], {'k': 'call', 'f': {'k': 'const', 'c': dict(c)}, 'args': list(arg_ops), 'dest': dest,
+                               'target': target, 'unwind': None, 'ln': ln, 'x': False, 'fx': False})
+        paths = facts.norm_index.get(norm(c['fn']), [])
+        if len(paths) == 1 and len(facts._raw[paths[0]]) == 1:
+            cd = json.loads(facts._raw[paths[0]][0])
+            if cd['kind'] in ('Fn', 'AssocFn') and cd['nargs'] == len(arg_ops):
+                inline_once(d, b, prepare_body(facts, cd, norm, depth + 1))
+        return b
+    return None
+
+
+def desugar_combinators(facts, d, norm, depth=0):
+    if depth > 3:
+        return d
+    changed = True
+    rounds = 0
+    while changed and rounds < 40 and len(d['blocks']) < MAX_BLOCKS:
+        changed = False
+        rounds += 1
+        for bb in range(len(d['blocks'])):
+            blk = d['blocks'][bb]
+            t = blk['t']
+            if t['k'] != 'call' or blk['cleanup'] or t['f'].get('k') != 'const' or t['dest']['p']:
+                continue
+            fn = t['f'].get('c', {}).get('fn')
+            if not fn:
+                continue
+            np_ = norm(fn)
+            kind = COMBINATORS.get(np_)
+            if kind is None and ('bool' in np_) and np_.rsplit('::', 1)[-1] in BOOL_COMBINATORS:
+                kind = BOOL_COMBINATORS[np_.rsplit('::', 1)[-1]]
+            if kind is None or t['target'] is None:
+                continue
+            if _desugar_one(facts, d, norm, bb, kind, depth):
+                d.setdefault('desugared', []).append(np_)
+                changed = True
+                break
+    return d
+
+
+def _desugar_one(facts, d, norm, bb, kind, depth):
+    blk = d['blocks'][bb]
+    t = blk['t']
+    ln = t.get('ln', '')
+    D = t['dest']
+    T = t['target']
+    args = t['args']
+    nst = len(blk['st'])
+    nlocals = len(d['locals'])
+    nblocks = len(d['blocks'])
+
+    def undo():
+        del blk['st'][nst:]
+        d['locals'] = d['locals'][:nlocals]
+        del d['blocks'][nblocks:]
+        blk['t'] = t
+        return False
+
+    def set_dest_block(rv, then=T):
+        return _new_block(d, [_assign(D, rv, ln)], _goto(then))
+
+    if kind.startswith('opt_') or kind.startswith('res_'):
+        adt, variants = (OPT, OPT_VARIANTS) if kind.startswith('opt_') else (RES, RES_VARIANTS)
+        o = _as_local(d, blk, args[0], ln)
+        if kind == 'opt_zip':
+            o2 = _as_local(d, blk, args[1], ln)
+            none_b = set_dest_block(_agg(OPT, 'None', []))
+            both = set_dest_block(_agg(OPT, 'Some', [{'k': 'move', 'pl': None}]))   # placeholder, fixed below
+            tup = _new_local(d, '(?, ?)')
+            d['blocks'][both]['st'] = [
+                _assign(_pl(tup), {'k': 'agg', 'ak': 'tuple', 'ops': [{'k': 'move', 'pl': _payload(o, OPT, 'Some')},
+                                                                        {'k': 'move', 'pl': _payload(o2, OPT, 'Some')}]}, ln),
+                _assign(D, _agg(OPT, 'Some', [_mv(tup)]), ln)]
+            second = _new_block(d, [], {'k': 'unreachable'})
+            _switch_variant(d, d['blocks'][second], o2, OPT, OPT_VARIANTS, {'None': none_b, 'Some': both}, ln)
+            _switch_variant(d, blk, o, OPT, OPT_VARIANTS, {'None': none_b, 'Some': second}, ln)
+            return True
+        some_name, none_name = ('Some', 'None') if adt == OPT else ('Ok', 'Err')
+        payload_some = {'k': 'move', 'pl': _payload(o, adt, some_name)}
+        if kind in ('opt_map', 'res_map'):
+            res = _new_local(d, '?')
+            wrap = set_dest_block(_agg(adt, some_name, [_mv(res)]))
+            call = _emit_fn_value_call(facts, d, norm, args[1], [payload_some], _pl(res), wrap, ln, depth)
+            if call is None:
+                return undo()
+            if adt == OPT:
+                other = set_dest_block(_agg(OPT, 'None', []))
+            else:
+                other = set_dest_block(_agg(RES, 'Err', [{'k': 'move', 'pl': _payload(o, RES, 'Err')}]))
+            _switch_variant(d, blk, o, adt, variants, {some_name: call, none_name: other}, ln)
+            return True
+        if kind in ('opt_and_then', 'res_and_then'):
+            call = _emit_fn_value_call(facts, d, norm, args[1], [payload_some], D, T, ln, depth)
+            if call is None:
+                return undo()
+            if adt == OPT:
+                other = set_dest_block(_agg(OPT, 'None', []))
+            else:
+                other = set_dest_block(_agg(RES, 'Err', [{'k': 'move', 'pl': _payload(o, RES, 'Err')}]))
+            _switch_variant(d, blk, o, adt, variants, {some_name: call, none_name: other}, ln)
+            return True
+        if kind == 'res_map_err':
+            res = _new_local(d, '?')
+            wrap = set_dest_block(_agg(RES, 'Err', [_mv(res)]))
+            call = _emit_fn_value_call(facts, d, norm, args[1], [{'k': 'move', 'pl': _payload(o, RES, 'Err')}],
+                                       _pl(res), wrap, ln, depth)
+            if call is None:
+                return undo()
+            okb = set_dest_block(_agg(RES, 'Ok', [payload_some]))
+            _switch_variant(d, blk, o, RES, RES_VARIANTS, {'Ok': okb, 'Err': call}, ln)
+            return True
+        if kind == 'opt_filter':
+            flag = _new_local(d, 'bool')
+            keep = set_dest_block(_agg(OPT, 'Some', [payload_some]))
+            drop = set_dest_block(_agg(OPT, 'None', []))
+            test = _new_block(d, [], {'k': 'switch', 'discr': _mv(flag), 'ty': 'bool', 'targets': [['0', drop]],
+                                      'otherwise': keep, 'ln': ln, 'x': False})
+            r = _new_local(d, '&?')
+            call = _emit_fn_value_call(facts, d, norm, args[1], [_mv(r)], _pl(flag), test, ln, depth)
+            if call is None:
+                return undo()
+            pre = _new_block(d, [_assign(_pl(r), {'k': 'ref', 'mut': False, 'pl': _payload(o, OPT, 'Some')}, ln)],
+                             _goto(call))
+            none_b = set_dest_block(_agg(OPT, 'None', []))
+            _switch_variant(d, blk, o, OPT, OPT_VARIANTS, {'Some': pre, 'None': none_b}, ln)
+            return True
+        if kind == 'opt_unwrap_or_else':
+            call = _emit_fn_value_call(facts, d, norm, args[1], [], D, T, ln, depth)
+            if call is None:
+                return undo()
+            someb = set_dest_block({'k': 'use', 'op': payload_some})
+            _switch_variant(d, blk, o, OPT, OPT_VARIANTS, {'Some': someb, 'None': call}, ln)
+            return True
+        if kind == 'opt_or_else':
+            call = _emit_fn_value_call(facts, d, norm, args[1], [], D, T, ln, depth)
+            if call is None:
+                return undo()
+            someb = set_dest_block(_agg(OPT, 'Some', [payload_some]))
+            _switch_variant(d, blk, o, OPT, OPT_VARIANTS, {'Some': someb, 'None': call}, ln)
+            return True
+        if kind == 'opt_map_or':
+            call = _emit_fn_value_call(facts, d, norm, args[2], [payload_some], D, T, ln, depth)
+            if call is None:
+                return undo()
+            noneb = set_dest_block({'k': 'use', 'op': args[1]})
+            _switch_variant(d, blk, o, OPT, OPT_VARIANTS, {'Some': call, 'None': noneb}, ln)
+            return True
+        if kind == 'opt_is_some_and':
+            call = _emit_fn_value_call(facts, d, norm, args[1], [payload_some], D, T, ln, depth)
+            if call is None:
+                return undo()
+            noneb = set_dest_block({'k': 'use', 'op': {'k': 'const', 'c': {'ty': 'bool', 'v': False}}})
+            _switch_variant(d, blk, o, OPT, OPT_VARIANTS, {'Some': call, 'None': noneb}, ln)
+            return True
+        if kind == 'opt_ok_or_else':
+            res = _new_local(d, '?')
+            wrap = set_dest_block(_agg(RES, 'Err', [_mv(res)]))
+            call = _emit_fn_value_call(facts, d, norm, args[1], [], _pl(res), wrap, ln, depth)
+            if call is None:
+                return undo()
+            someb = set_dest_block(_agg(RES, 'Ok', [payload_some]))
+            _switch_variant(d, blk, o, OPT, OPT_VARIANTS, {'Some': someb, 'None': call}, ln)
+            return True
+        return undo()
+    if kind in ('bool_then', 'bool_then_some'):
+        cond = _as_local(d, blk, args[0], ln, 'bool')
+        none_b = set_dest_block(_agg(OPT, 'None', []))
+        if kind == 'bool_then':
+            res = _new_local(d, '?')
+            wrap = set_dest_block(_agg(OPT, 'Some', [_mv(res)]))
+            call = _emit_fn_value_call(facts, d, norm, args[1], [], _pl(res), wrap, ln, depth)
+            if call is None:
+                return undo()
+            yes = call
+        else:
+            yes = set_dest_block(_agg(OPT, 'Some', [args[1]]))
+        blk['t'] = {'k': 'switch', 'discr': {'k': 'copy', 'pl': _pl(cond)}, 'ty': 'bool', 'targets': [['0', none_b]],
+                    'otherwise': yes, 'ln': ln, 'x': False}
+        return True
+    return False
+
+
+def prepare_body(facts, d, norm, depth=0):
+    """all normalisations of one body dict: std combinators desugared, new private helpers inlined"""
+    if d['kind'] not in ('Fn', 'AssocFn', 'Closure'):
+        return d
+    d = desugar_combinators(facts, d, norm, depth)
+    d = inline_new_helpers(facts, d, norm, depth)
+    return d
